@@ -133,6 +133,22 @@ class MessageHandler(Generic[_T, _K]):
             for n in notifiers:
                 n.unsubscribe(_handler)
 
+        def _waiter_gone(done_fut: asyncio.Future):
+            # Whatever was awaiting the future went away without an answer (task cancelled,
+            # wrapped in a wait_for() that timed out.) Nobody owns matching messages anymore,
+            # so don't leave the handler around to take() the next one.
+            if not done_fut.cancelled():
+                return
+            if timeout_task:
+                timeout_task.cancel()
+            for n in notifiers:
+                try:
+                    n.unsubscribe(_handler)
+                except ValueError:
+                    pass
+
+        fut.add_done_callback(_waiter_gone)
+
         for notifier in notifiers:
             notifier.subscribe(_handler, predicate=predicate)
         return fut
